@@ -23,7 +23,10 @@ def prog_chain_hang(rng, behaviour):
         scripts["b"]["schema"] = "nocancel"
     scripts["b"]["exec"] = ex
     outs = {"success": {"c": gen.tagref("c")}, "b_error": {"why": Expr(Ref("b", "outputs", "error", "reason"))}}
-    return Program(steps, outs, gen.BASE_INPUT), scripts, "chain_hang/" + behaviour
+    if rng.random() < 0.5:
+        # the crash report of the step that is closed by force completes an output: the run may end on it
+        outs["b_crashed"] = {"why": Expr(Ref("b", "crashed", "error"))}
+    return Program(steps, outs, gen.BASE_INPUT), scripts, "chain_hang/" + behaviour + ("+crashed-output" if "b_crashed" in outs else "")
 
 
 def prog_parallel_hang(rng, k=3):
@@ -65,6 +68,22 @@ def prog_finishing(rng, shape):
 NEVER_ENDING = [lambda rng: prog_chain_hang(rng, "obey"), lambda rng: prog_chain_hang(rng, "ignore"), lambda rng: prog_chain_hang(rng, "nohandler"),
                 lambda rng: prog_chain_hang(rng, "success"), prog_parallel_hang, prog_deploy_blocks, prog_foreach_hang]
 FINISHING = ["chain", "diamond", "fan_in", "wait_for", "deploy_expr", "enabled", "foreach", "foreach_after", "random_dag"]
+
+
+def slow_close(scripts, ms=30, only_never_ending=False):
+    """Run-time deployments (all, or only those of steps that never end by themselves) take `ms` to close
+    (a container that is slow to stop)."""
+    import copy
+    out = copy.deepcopy(scripts)
+    for src, sc in out.items():
+        if only_never_ending and (sc.get("exec") or {}).get("outcome") != "hang":
+            continue
+        ds = sc.get("deploys") or [{}, {}]
+        while len(ds) < 2:
+            ds.append(dict(ds[-1]) if ds else {})
+        ds[1] = dict(ds[1], close_delay_ms=ms)
+        sc["deploys"] = ds
+    return out
 
 
 def certain_events(prog, scripts, inp):
@@ -112,6 +131,9 @@ def cancel_cases(check, rn, prefix, nfin, nnever, kmax_quick=14, sched_points=0)
         rng = random.Random(derive_seed(check.seed, prefix + "-fin", i))
         sh = FINISHING[i % len(FINISHING)]
         prog, scripts, name = prog_finishing(rng, sh)
+        if i % 3 == 2:
+            scripts = slow_close(scripts, 15)
+            name += "/slow-close"
         fin.append({"program": prog, "scripts": scripts, "input": base_input(rng), "shape": name})
     rec_items = []
     for i, g in enumerate(fin):
@@ -140,6 +162,10 @@ def cancel_cases(check, rn, prefix, nfin, nnever, kmax_quick=14, sched_points=0)
         rng = random.Random(derive_seed(check.seed, prefix + "-never", i))
         prog, scripts, name = NEVER_ENDING[i % len(NEVER_ENDING)](rng)
         inp = base_input(rng)
+        v = (i // len(NEVER_ENDING)) % 3
+        if v:
+            scripts = slow_close(scripts, only_never_ending=v == 2)
+            name += "/slow-close" + ("-of-never-ending" if v == 2 else "")
         evs, _sem = certain_events(prog, scripts, inp)
         for (kind, src, nth) in evs:
             g = {"program": prog, "scripts": scripts, "input": inp, "shape": "%s/cancel@%s:%s#%d" % (name, kind, src, nth), "cancel": (kind, src, nth)}
